@@ -10,6 +10,7 @@ from nptdms.common import toc_properties, ObjectPath
 from nptdms.timestamp import TdmsTimestamp
 from nptdms.types import *
 from nptdms import TdmsFile
+from nptdms import _verif
 
 
 class TdmsWriter(object):
@@ -153,6 +154,11 @@ class TdmsWriter(object):
             segment = TdmsSegment(objects, is_index_file=True, version=self._tdms_version)
             segment.write(self._index_file)
 
+        if _verif.enabled():
+            _verif.trace(
+                "write_segment", paths=[o.path for o in objects], root_added=bool(add_root),
+                groups_added=list(groups_to_add), root_written_before=bool(self._root_written),
+                groups_written_before=sorted(self._groups_written))
         self._root_written = True
         self._groups_written.update(groups_included)
         self._groups_written.update(groups_to_add)
